@@ -308,7 +308,8 @@ def tokenize_punctuation_command_name(text, prev=None):
     :param Buffer text: iterator over text, with current position
     """
     if text.peek(-1) and text.peek(-1).category == CC.Escape:
-        for point in PUNCTUATION_COMMANDS:
+        # longest match first, in an order independent of the hash seed
+        for point in sorted(PUNCTUATION_COMMANDS, key=lambda p: (-len(p), p)):
             if text.peek((0, len(point))) == point:
                 result = text.forward(len(point))
                 result.category = TC.PunctuationCommandName
